@@ -93,7 +93,6 @@ CHECKS = {
     "C10": {
         "engine": "ENUM + PROG",
         "design_ref": "DESIGN.md 2.4, 3/C10",
-        "category": "translation_validation",
         "technique": "differential exhaustive enumeration: stock template families in an unpatched twin process vs the patched process; split (extends/include) programs vs the flattened program",
         "text": "(a) every stock template family with <= N nodes (single / extends+block+block.super / include with-only; if/for/with/filter/autoescape/firstof/cycle, simple_tag with quoted argument, inclusion_tag, ill-formed members) is executed in a "
                 "process that never imports django_components and in the patched process, both engine.debug values x 3 contexts; token streams, outputs, exception class/message/debug line and the Context state after render must be identical. "
